@@ -45,4 +45,14 @@ var registry = []propCfg{
 		Parts: []partCfg{{Test: "TestC17", Quick: 6000, Thorough: 60000}},
 		Assum: []string{"routability is observed by probing the real container, not taken from the model", "failures matching the signature of D12 (more than one root matches; extra methods come from the less specific service) are counted as excluded while D12 is open"},
 	},
+	{
+		ID: "C05", Level: "exploration",
+		Rule: "per registered-writer configuration (three processes: built-in JSON+XML; plus two vendor types; plus a key that contains another key as a substring) rapid draws a non-empty Produces list over registered types (order matters), DefaultResponseContentType in {unset, JSON, XML}, the pretty-print flag, the entry point, and an Accept header from a grammar: 0-6 ranges, each a Produces member, */*, another registered type or a foreign type (text/html, image/*), q in {absent,1,1.0,0.9,0.8,0.5,0.50,0.1,0.001} with deliberate ties, parameters before/after q, 0-2 spaces around , ; and =. The expected Content-Type is computed by a reference ranking (greater q first, header order on ties, */* = first Produces entry, no header = */*); the request is repeated 12 times with the header as rendered and with all optional whitespace stripped: every response must be 200, carry exactly the expected type and decode with the codec it names to the written value. Headers that admit no produced type are outside the statement's domain (counted). Non-trivial: at least two produced types and the header overrides Produces order, or whitespace/parameters sit next to a q-value. Distinct: FNV-64 of the case JSON.",
+		Parts: []partCfg{
+			{Test: "TestC05", Quick: 15000, Thorough: 150000, Shards: 5, Env: []string{"VERIF_REGISTRY=a"}},
+			{Test: "TestC05", Quick: 15000, Thorough: 150000, Shards: 5, Env: []string{"VERIF_REGISTRY=b"}},
+			{Test: "TestC05", Quick: 15000, Thorough: 150000, Shards: 6, Env: []string{"VERIF_REGISTRY=c"}},
+		},
+		Assum: []string{"q=0 ranges, invalid q syntax, non-SP whitespace and partial wildcards overlapping Produces are outside the grammar (unspecified by the statement)", "determinism is sampled: 12 repetitions per header"},
+	},
 }
